@@ -28,7 +28,7 @@ COMPONENTS = {'real': ['crypto.py (Prf, prf+, Cipher, Integrity, MODPDH, ECDH)',
 ASSUMPTIONS = ['the two daemons run the same code, so the symmetry is broken only by the reference (no active reference peer yet: interop '
                'is judged by the reference being able to open / re-derive everything the daemons exchange and install)',
                'prf+ is exercised at the output lengths the key schedule requests (68..448 octets), not at every length']
-NOT_EXERCISED = ['prf+ at arbitrary output lengths (pure function residue)', 'active reference peer (REF) interop']
+NOT_EXERCISED = ['elliptic curves are the cryptography library\'s named curves (P-256/384/521): their parameters are not re-derived, only used']
 EXPECT_REACH = ['sessions_followed', 'children_keymat_compared', 'ike_rekeys_followed', 'children_pfs', 'prf.2', 'prf.5', 'prf.7',
                 'integ.2', 'integ.12', 'integ.14', 'encr.128', 'encr.256', 'dh.14', 'dh.19', 'dh.20', 'dh.21', 'dh.15', 'dh.16',
                 'leading_zero_shared', 'leading_zero_public', 'nonce_16', 'nonce_long']
@@ -56,6 +56,27 @@ def run(scenario):
     def at_end(w, ctx):
         tap = ctx['tap']
         reach = ctx.setdefault('reach', {})
+        if scenario.get('seed', 0) % 25 == 0:
+            # pure-function residue of the statement (no schedule or fault in it; evaluated directly, seeded inputs): prf+ at every output
+            # length up to 255 blocks' worth, and the MODP primes against the ones recomputed from pi (RFC 3526)
+            from sim import seams
+            rr = random.Random(f'C04residue:{scenario.get("seed")}')
+            crypto, message = seams.M['crypto'], seams.M['message']
+            for pid in (2, 5, 7):
+                prf = crypto.Prf(message.Transform(message.Transform.Type.PRF, pid))
+                key = bytes(rr.getrandbits(8) for _ in range(rr.choice([0, 1, 20, 32, 64, 65, 200])))
+                seed_ = bytes(rr.getrandbits(8) for _ in range(rr.choice([0, 1, 48, 100])))
+                hs = R.prf_len(pid)
+                for n in sorted({0, 1, hs - 1, hs, hs + 1, 2 * hs, 7 * hs + 3, rr.randrange(1, 255 * hs), 255 * hs}):
+                    if bytes(prf.prfplus(key, seed_, n)) != R.prf_plus(pid, key, seed_, n):
+                        return w.violation(PROP, 'prf_plus_differs_from_definition', {'prf': pid}, f'prf+ (PRF {pid}) of {n} octets differs from RFC 7296 2.13')
+                reach['prf_plus_lengths_checked'] = reach.get('prf_plus_lengths_checked', 0) + 1
+            for g, bits in R.MODP_BITS.items():
+                gd = crypto.MODPDH._group_dict
+                key = next((k for k in gd if int(k) == g), None)
+                if key is not None and int(gd[key], 16) != R.modp_prime(bits):
+                    return w.violation(PROP, 'modp_prime_differs_from_rfc3526', {'group': g}, f'the prime of group {g} is not the RFC 3526 {bits}-bit MODP prime')
+            reach['modp_primes_checked'] = 1
         for p in tap.problems:
             if p['kind'] == 'cannot_open_protected_message':
                 return w.violation(PROP, 'traffic_not_under_rfc_keys', p['sig'], p['detail'])
